@@ -5,7 +5,7 @@
 (*                                                                         *)
 (* cx is a record:                                                         *)
 (*   native    set of leaf tags a format dialect leaves unconverted         *)
-(*   omit_none / by_alias    effective call-level options: "unset" | TRUE | FALSE *)
+(*   omit_none / by_alias    call-level keyword arguments: "unset" | "yes" | "no"  *)
 (*   dlct      options carried by the dialect in effect (option list)      *)
 (*   nt_dict   namedtuple_as_dict in effect                                *)
 (*                                                                         *)
@@ -49,18 +49,22 @@ EffOpt(T, cx, opt) ==
       cfgd == GetOpt(DcCfg(T), "dialect", <<>>)
       cfg  == DcCfg(T)
       o    == IF opt = "by_alias" THEN "serialize_by_alias" ELSE opt
-  IN  IF kw # "unset" THEN kw
+  IN  IF kw # "unset" THEN kw = "yes"
       ELSE IF HasOpt(cdl, o) THEN GetOpt(cdl, o, FALSE)
       ELSE IF HasOpt(cfgd, o) THEN GetOpt(cfgd, o, FALSE)
       ELSE IF HasOpt(cfg, o) THEN GetOpt(cfg, o, FALSE)
       ELSE IF HasOpt(cx.fmtd, o) THEN GetOpt(cx.fmtd, o, FALSE)
       ELSE FALSE
 
-\* context handed to a nested dataclass: a keyword / dialect reaches a nested class only
-\* if the OUTER class enabled the flag too (NoLeak, C08)
+\* context handed to a nested dataclass: where the OUTER class enabled a keyword flag, the value
+\* in effect for the outer call (the keyword, or the outer class's own default for it) is handed
+\* down as that keyword, and it reaches a nested class only if that class enabled the same flag
+\* too (EffOpt looks at the nested class's flags) -- an outer option never leaks into a class
+\* that did not opt in (NoLeak, C08).  The same holds for the call dialect.
+YN(b) == IF b THEN "yes" ELSE "no"
 NestCx(T, cx) ==
-  [cx EXCEPT !.omit_none = IF "omit_none_flag" \in Flags(T) THEN cx.omit_none ELSE "unset",
-             !.by_alias  = IF "by_alias_flag"  \in Flags(T) THEN cx.by_alias  ELSE "unset",
+  [cx EXCEPT !.omit_none = IF "omit_none_flag" \in Flags(T) THEN YN(EffOpt(T, cx, "omit_none")) ELSE "unset",
+             !.by_alias  = IF "by_alias_flag"  \in Flags(T) THEN YN(EffOpt(T, cx, "by_alias"))  ELSE "unset",
              !.dlct      = IF "dialect_flag"   \in Flags(T) THEN cx.dlct      ELSE <<>>]
 
 RECURSIVE Pack(_, _, _)
